@@ -16,13 +16,23 @@ func init() { Register(c06{}) }
 
 func (c06) ID() string { return "C06" }
 
+// c06Pairs: independent calls run at the same time by two callers (kind parse2 / eval2).
+var c06Pairs = [][3]string{
+	{"parse2", "cat <<E <<'F'\n$x\nE\ny\nF\n", "f() { cat <<-X; }\n\tbody\n\tX\n"},
+	{"parse2", "f() { a; }; g() { b; }\n", "h() ( c )\n"},
+	{"parse2", "a | | $(", "cat <<E\nb\nE\n"},
+	{"eval2", "(x = 1) + y + 1", "z + 2"},
+	{"eval2", "y*2", "(x=3)+z"},
+	{"eval2", "1/0", "x = 08, 1"},
+}
+
 var c06Expand = []string{
 	"$((1+2))", "$((x=1))", "$(( (x = 1) + 08 + (y=2) + 1/0 ))", "a$((x = 08, 1))b", "\"$((1 1))\"", "$((x++ + ++y))$((1/0))", "${z:=$((x=5))}", "$((1))$((08))$((y=3))",
 	"${x:-$((1/0))}", "$((  ))", "$(( @ ))", "$((x=y=3))$x$y",
 }
 
 func (c06) counts(tier string) (cur, ngen int) {
-	cur = len(gen.Curated) + len(gen.ArithCurated) + len(c06Expand)
+	cur = len(gen.Curated) + len(gen.ArithCurated) + len(c06Expand) + len(c06Pairs)
 	if tier == "thorough" {
 		return cur, 60000
 	}
@@ -64,6 +74,11 @@ func (p c06) Gen(seed uint64, tier string, idx int) (*Case, bool) {
 		return &Case{Kind: "expand", Src: c06Expand[idx], Vars: [][2]string{{"y", "7"}}, Note: "curated-expand", DFS: dfs}, true
 	}
 	idx -= len(c06Expand)
+	if idx < len(c06Pairs) {
+		pr := c06Pairs[idx]
+		return &Case{Kind: pr[0], Src: pr[1], Src2: pr[2], Vars: [][2]string{{"y", "abc"}, {"z", "zz"}}, Note: "curated-two-callers", DFS: dfs / 2}, true
+	}
+	idx -= len(c06Pairs)
 	src := gen.FromSeed(gosim.Mix(seed, 0xC06, uint64(idx)))
 	c := p.build(src)
 	c.GenTape = src.Rec
@@ -80,7 +95,7 @@ func (p c06) Regen(tier string, c *Case, tape []uint32) *Case {
 func (c06) build(src *gen.Source) *Case {
 	o := gen.FullOpts()
 	o.MaxDepth = 3
-	class := src.Intn(13)
+	class := src.Intn(14)
 	c := &Case{Kind: "parse", Reader: gosim.ReaderPlan{Kind: "scanner", FaultAt: -1}}
 	if src.Chance(1, 4) {
 		c.Reader.Unread = "multi"
@@ -155,6 +170,10 @@ func (c06) build(src *gen.Source) *Case {
 		if src.Chance(1, 3) {
 			c.Src2 = gen.Mutate(src, c.Src2)
 		}
+	case class == 13:
+		// two independent evaluations at the same time, on separate environments
+		c = &Case{Kind: "eval2", Src: gen.ArithExpr(src, 3), Src2: gen.ArithExpr(src, 3), Note: "two-evaluators"}
+		c.Vars = [][2]string{{"y", src.Pick([]string{"2", "08", "", "abc", "0x10"})}, {"z", src.Pick([]string{"1", "zz", "09"})}}
 	case class == 9:
 		c = &Case{Kind: "eval", Src: gen.ArithExpr(src, 3), Note: "eval"}
 		c.Vars = [][2]string{{"y", src.Pick([]string{"2", "08", "", "abc", "0x10"})}}
@@ -203,6 +222,8 @@ func (c06) Run(t *testing.T, c *Case, s Sched, keepLog bool) *Obs {
 		return RunEval(t, c, s, keepLog)
 	case "parse2":
 		return RunParse2(t, c, s, keepLog)
+	case "eval2":
+		return RunEval2(t, c, s, keepLog)
 	}
 	return RunParse(t, c, s, keepLog)
 }
@@ -222,8 +243,11 @@ func (c06) Judge(c *Case, obs []*Obs) []Finding {
 			add(f)
 		}
 	}
-	if c.Kind == "parse2" {
+	if c.Kind == "parse2" || c.Kind == "eval2" {
 		solo := []string{SoloDump(c.Src), SoloDump(c.Src2)}
+		if c.Kind == "eval2" {
+			solo = []string{SoloEval(c, c.Src), SoloEval(c, c.Src2)}
+		}
 		for i, o := range obs {
 			for k := 0; k < 2 && k < len(o.Parts); k++ {
 				if o.Parts[k] != solo[k] {
